@@ -283,6 +283,100 @@ fn idle(input: &[V]) -> Vec<V> {
     out
 }
 
+struct CountingWaker(std::sync::atomic::AtomicU64);
+impl std::task::Wake for CountingWaker {
+    fn wake(self: std::sync::Arc<Self>) {
+        self.0.fetch_add(1, std::sync::atomic::Ordering::SeqCst);
+    }
+}
+
+/// Reader wake-up of the real `ReceiveStream` inside the real `DefaultStreamManager` (hook
+/// verif_hooks/recv.rs). One peer-initiated bidirectional stream whose receive window is W
+/// (connection window far larger); the peer sends in-order pieces, never beyond what the receiver
+/// currently admits (consumed + W).
+/// case = [W, ops..]; ops (code mod 4): 0 n: STREAM piece of n bytes (clipped to the window room; nothing
+/// is sent when no room is left) | 1 L H: read request with low watermark L, high watermark max(H,1) and a
+/// counting waker | 2 n: STREAM piece with FIN | 3: RESET_STREAM(final size = bytes sent so far).
+/// After FIN/reset no further frames are sent; the case ends when a read returns Finished or fails.
+/// output per op: [bytes consumed, will_wake, status, number of wake() calls so far, bytes available (reads only)]
+fn rxwake(input: &[V]) -> Vec<V> {
+    use s2n_quic_transport::verif_hooks::recv::{self, FlowLimits, RxDriver};
+    let mut c = Cur::new(input);
+    let w = arg(&mut c, 8192).max(1);
+    let local = FlowLimits {
+        max_data_bidi_local: w,
+        max_data_bidi_remote: w,
+        max_data_uni: w,
+        max_data: 1 << 30,
+        max_bidi_streams: 100,
+        max_uni_streams: 100,
+    };
+    let peer = FlowLimits {
+        max_data_bidi_local: 1 << 20,
+        max_data_bidi_remote: 1 << 20,
+        max_data_uni: 1 << 20,
+        max_data: 1 << 30,
+        max_bidi_streams: 100,
+        max_uni_streams: 100,
+    };
+    let mut d = RxDriver::new(true, local, peer);
+    let sid = recv::stream_id(false, true, 0).unwrap();
+    // the peer opens the stream with an empty STREAM frame; the application accepts it
+    d.on_stream(sid, 0, &[], false).expect("stream opens");
+    assert_eq!(d.accept(true), Some(sid));
+    let counter = std::sync::Arc::new(CountingWaker(std::sync::atomic::AtomicU64::new(0)));
+    let waker = std::task::Waker::from(counter.clone());
+    let wakes = || counter.0.load(std::sync::atomic::Ordering::SeqCst) as V;
+    let mut sent: u64 = 0; // end offset of what the peer has sent
+    let mut consumed: u64 = 0;
+    let mut ended = false; // FIN or RESET sent
+    let mut out: Vec<V> = vec![];
+    while !c.done() {
+        let op = c.next().rem_euclid(4);
+        let mut rec: [V; 3] = [0, 0, 0];
+        let mut stop = false;
+        match op {
+            0 | 2 => {
+                let n = arg(&mut c, 1 << 20).min(consumed + w - sent);
+                let fin = op == 2;
+                if !ended && (n > 0 || fin) {
+                    let data: Vec<u8> = (0..n).map(|i| ((sent + i) % 251) as u8).collect();
+                    d.on_stream(sid, sent, &data, fin)
+                        .expect("in-window, in-order data is accepted");
+                    sent += n;
+                    ended = fin;
+                }
+            }
+            1 => {
+                let low = arg(&mut c, 1 << 20) as usize;
+                let high = (arg(&mut c, 1 << 20) as usize).max(1);
+                let r = d.poll_rx(sid, low, high, &waker);
+                consumed += r.consumed as u64;
+                rec = [r.consumed as V, r.will_wake as V, r.status as V];
+                stop = r.status == 2 || r.status == 9;
+                out.extend(rec);
+                out.push(wakes());
+                out.push(r.available as V);
+                if stop {
+                    break;
+                }
+                continue;
+            }
+            _ => {
+                if !ended {
+                    d.on_reset_stream(sid, 7, sent).expect("reset with the right final size");
+                    ended = true;
+                }
+            }
+        }
+        let _ = stop;
+        out.extend(rec);
+        out.push(wakes());
+        out.push(0);
+    }
+    out
+}
+
 fn main() {
-    main_with(&[("ivs", ivs), ("osync", osync), ("psync", psync), ("idle", idle)]);
+    main_with(&[("ivs", ivs), ("osync", osync), ("psync", psync), ("idle", idle), ("rxwake", rxwake)]);
 }
